@@ -135,6 +135,38 @@ func gen(r *vh.Rand, tier string, n int, emit func(vh.Case)) {
 				}
 			}
 		}
+		// a second block service B (own store and exchange) used with contexts that carry a session embedded for the
+		// first one: B must serve from ITS store, fetch from ITS exchange and cache in ITS store
+		if r.Chance(1, 3) {
+			for d := 0; d < nd; d++ {
+				if r.Chance(1, 3) {
+					c.Ops = append(c.Ops, "badd "+hcid(r, d)+"="+strconv.Itoa(d))
+				}
+			}
+			for j, m := 0, r.Range(1, 5); j < m; j++ {
+				bm := vh.Pick(r, []string{"B:d", "B:C0", "B:C0", "B:C1", "B:X0", "B:X1"})
+				if r.Bool() {
+					d := r.Intn(nd)
+					k := hcid(r, d)
+					ans := vh.Pick(r, []string{"err", k + "=" + strconv.Itoa(d), k + "=" + strconv.Itoa(d), k + "=" + strconv.Itoa(d)})
+					c.Ops = append(c.Ops, fmt.Sprintf("get %s %s %s 1", bm, k, ans))
+				} else {
+					var ks, ans []string
+					for k, n := 0, r.Range(1, 5); k < n; k++ {
+						d := r.Intn(nd)
+						t := hcid(r, d)
+						ks = append(ks, t)
+						if r.Chance(4, 5) {
+							ans = append(ans, t+"="+strconv.Itoa(d))
+						}
+					}
+					c.Ops = append(c.Ops, strings.TrimSpace(fmt.Sprintf("getmany %s - %s | %s", bm, strings.Join(ks, " "), strings.Join(ans, " "))))
+				}
+			}
+			for d := 0; d < nd; d++ {
+				c.Ops = append(c.Ops, "bpeek "+bsx.CidTok(0x55, 0x12, 32, d))
+			}
+		}
 		for d := 0; d < nd; d++ {
 			c.Ops = append(c.Ops, "peek "+bsx.CidTok(0x55, 0x12, 32, d))
 		}
